@@ -1000,7 +1000,7 @@ def _num(v):
     return None if f is None else float(f)
 
 
-def realistic_model(eng, extra=None, rounds=6):
+def realistic_model(eng, extra=None, rounds=12):
     """a model of pc (and extra) in which every exp/log/logsumexp/product
     application has its true value at the model's own argument values (so a
     concrete run with real numpy follows the same path); None if the
@@ -1044,25 +1044,73 @@ def realistic_model(eng, extra=None, rounds=6):
             s.pop()
             strong, mism = [], 0
             ok = True
+            cache = {}
+
+            def tval(t):
+                """numeric value of t with true function values inside"""
+                i = t.get_id()
+                if i in cache:
+                    return cache[i]
+                r_ = None
+                if _is_fn_app(t):
+                    vs = [tval(x) for x in t.children()]
+                    if all(v is not None for v in vs):
+                        r_ = _true_value(t.decl().name(), vs)
+                elif z3.is_bool(t):
+                    r_ = None
+                elif t.num_args() == 0 or \
+                        t.decl().kind() == z3.Z3_OP_UNINTERPRETED:
+                    r_ = _num(m.eval(t, model_completion=True))
+                else:
+                    vs = [tval(x) for x in t.children()
+                          if not z3.is_bool(x)]
+                    k = t.decl().kind()
+                    if any(v is None for v in vs):
+                        r_ = None
+                    elif k == z3.Z3_OP_ADD:
+                        r_ = sum(vs)
+                    elif k == z3.Z3_OP_SUB:
+                        r_ = vs[0] - sum(vs[1:])
+                    elif k == z3.Z3_OP_MUL:
+                        r_ = 1.0
+                        for v in vs:
+                            r_ *= v
+                    elif k == z3.Z3_OP_UMINUS:
+                        r_ = -vs[0]
+                    elif k in (z3.Z3_OP_DIV,):
+                        r_ = vs[0] / vs[1] if vs[1] != 0 else None
+                    elif k == z3.Z3_OP_TO_REAL:
+                        r_ = vs[0]
+                    elif k == z3.Z3_OP_TO_INT:
+                        import math
+                        r_ = float(math.floor(vs[0]))
+                    else:
+                        r_ = _num(m.eval(t, model_completion=True))
+                cache[i] = r_
+                return r_
+            for c in reals:
+                strong.append(c == m.eval(c, model_completion=True))
             for a in apps:
-                vals = [_num(m.eval(x, model_completion=True))
-                        for x in a.children()]
-                if any(v is None for v in vals):
-                    ok = False
-                    break
-                tv = _true_value(a.decl().name(), vals)
+                tv = tval(a)
                 if tv is None or tv != tv or abs(tv) > 1e100:
                     ok = False
                     break
-                cur = _num(m.eval(a, model_completion=True))
-                argeq = [x == m.eval(x, model_completion=True)
-                         for x in a.children()]
                 pin = a == _float_term(tv)
-                strong.extend(argeq)
                 strong.append(pin)
+                cur = _num(m.eval(a, model_completion=True))
                 if cur is None or abs(cur - tv) > 1e-9 * max(1.0, abs(tv)):
                     mism += 1
-                    lemmas.append(z3.Implies(z3.And(*argeq), pin))
+                    argeq = [x == m.eval(x, model_completion=True)
+                             for x in a.children()]
+                    vals = [_num(m.eval(x, model_completion=True))
+                            for x in a.children()]
+                    if all(v is not None for v in vals):
+                        tv0 = _true_value(a.decl().name(), vals)
+                        if tv0 is not None and tv0 == tv0 and \
+                                abs(tv0) < 1e100:
+                            lemmas.append(z3.Implies(
+                                z3.And(*argeq), a == _float_term(tv0)))
+                            lemmas.extend(_shape_lemmas(a, vals, tv0))
             if not ok:
                 # unusable valuation (log of a non-positive number, ...):
                 # exclude it and retry
@@ -1084,6 +1132,67 @@ def realistic_model(eng, extra=None, rounds=6):
         return None
     finally:
         s.pop()
+
+
+def _shape_lemmas(a, vals, tv):
+    """sound facts about the real function around the current argument
+    values (incremental linearisation: tangent planes for products,
+    monotonicity / convexity for exp, log, logsumexp)"""
+    name = a.decl().name()
+    xs = a.children()
+    out = []
+    if name == 'MUL':
+        x, y = xs
+        x0, y0 = _float_term(vals[0]), _float_term(vals[1])
+        plane = x0 * y + y0 * x - x0 * y0
+        same = z3.Or(z3.And(x >= x0, y >= y0), z3.And(x <= x0, y <= y0))
+        opp = z3.Or(z3.And(x >= x0, y <= y0), z3.And(x <= x0, y >= y0))
+        out.append(z3.Implies(same, a >= plane))
+        out.append(z3.Implies(opp, a <= plane))
+        if z3.eq(x, y):
+            out.append(a >= 0)
+        out.append(z3.Implies(z3.Or(x == 0, y == 0), a == 0))
+        out.append(z3.Implies(z3.Or(z3.And(x > 0, y > 0),
+                                    z3.And(x < 0, y < 0)), a > 0))
+        out.append(z3.Implies(z3.Or(z3.And(x > 0, y < 0),
+                                    z3.And(x < 0, y > 0)), a < 0))
+    elif name == 'DIV':
+        x, y = xs
+        x0, y0 = _float_term(vals[0]), _float_term(vals[1])
+        q0 = _float_term(tv)
+        # q*y = x: tangent planes of the product q*y at (q0, y0)
+        plane = q0 * y + y0 * a - q0 * y0
+        same = z3.Or(z3.And(a >= q0, y >= y0), z3.And(a <= q0, y <= y0))
+        opp = z3.Or(z3.And(a >= q0, y <= y0), z3.And(a <= q0, y >= y0))
+        out.append(z3.Implies(z3.And(same, y != 0), x >= plane))
+        out.append(z3.Implies(z3.And(opp, y != 0), x <= plane))
+    elif name == 'EXP':
+        x = xs[0]
+        x0, e0 = _float_term(vals[0]), _float_term(tv)
+        out.append(z3.Implies(x <= x0, a <= e0))
+        out.append(z3.Implies(x >= x0, a >= e0))
+        out.append(a >= e0 * (1 + x - x0))        # convexity
+    elif name == 'LOG':
+        x = xs[0]
+        x0, l0 = _float_term(vals[0]), _float_term(tv)
+        out.append(z3.Implies(z3.And(x > 0, x <= x0), a <= l0))
+        out.append(z3.Implies(x >= x0, a >= l0))
+        if vals[0] > 0:
+            out.append(z3.Implies(x > 0, a <= l0 + (x - x0) *
+                                  _float_term(1.0 / vals[0])))
+    elif name == 'SQRT':
+        x = xs[0]
+        x0, r0 = _float_term(vals[0]), _float_term(tv)
+        out.append(z3.Implies(z3.And(x >= 0, x <= x0), a <= r0))
+        out.append(z3.Implies(x >= x0, a >= r0))
+    elif name.startswith('LSE'):
+        lo = z3.And(*[x <= _float_term(v) for x, v in zip(xs, vals)])
+        hi = z3.And(*[x >= _float_term(v) for x, v in zip(xs, vals)])
+        out.append(z3.Implies(lo, a <= _float_term(tv)))
+        out.append(z3.Implies(hi, a >= _float_term(tv)))
+        for x in xs:
+            out.append(a >= x)
+    return out
 
 
 def _float_term(v):
